@@ -596,6 +596,30 @@ def _run_impl(case: dict) -> list:
                 except SharedDirectoryError:
                     res = 'already-shared' if kind == 'add' else 'not-shared'
                 obs.append({'res': res, 'dump': dump(), 'index': index_view()})
+            elif kind == 'restart':
+                # the session ends (nobody holds the old objects any more); a new one starts from the shares cache written at
+                # shutdown plus the settings that list the shared directories (`store_data` / `load_data`, as the client does)
+                import gc
+                from aioslsk.shares.cache import SharesShelveCache
+                from aioslsk.settings import SharedDirectorySettingEntry
+                cdir = root + '.cache'
+                os.makedirs(cdir, exist_ok=True)
+                mgr.cache = SharesShelveCache(cdir)
+                loop.run_until_complete(mgr.store_data())
+                settings.shares.directories = [
+                    SharedDirectorySettingEntry(path=d.absolute_path, share_mode=d.share_mode, users=list(d.users or []))
+                    for d in mgr.shared_directories]
+                had_exec = mgr.executor
+                mgr = SharesManager(settings, bus, None, cache=SharesShelveCache(cdir))
+                mgr.executor = had_exec
+                del keep[:]
+                current.clear()
+                stale.clear()
+                gc.collect()
+                loop.run_until_complete(mgr.load_data())
+                for d in mgr.shared_directories:
+                    current[rel(d.absolute_path)] = d
+                obs.append({'res': 'ok', 'dump': dump(), 'index': index_view()})
             elif kind == 'stats':
                 st = mgr.get_stats()
                 obs.append({'stats': [st[0], st[1]], 'index': index_view()})
@@ -617,6 +641,7 @@ def _run_impl(case: dict) -> list:
         except Exception:
             pass
         shutil.rmtree(root, ignore_errors=True)
+        shutil.rmtree(root + '.cache', ignore_errors=True)
     return obs
 
 
@@ -681,7 +706,7 @@ def _model_lines(case: dict) -> tuple[list[str], list[int]]:
             where.append(len(lines))
             lines.append(f'scanall {files()}')
             lines.append('dump')
-        elif k == 'stats':
+        elif k in ('stats', 'restart'):           # a restart leaves the index as it is
             where.append(len(lines))
             lines.append('dump')
         elif k == 'query':
@@ -708,6 +733,9 @@ def _compare(case: dict, impl: list, out: list[str], where: list[int]):
                 return (i, o['res'], m_res)
             if o['dump'] != m_dump:
                 return (i, o['dump'], m_dump)
+        elif k == 'restart':
+            if o['dump'] != out[w]:
+                return (i, o['dump'], out[w])
         elif k == 'stats':
             m = out[w].rsplit('|stats=', 1)[-1]
             if f'{o["stats"][0]} {o["stats"][1]}' != m:
@@ -865,6 +893,11 @@ def _monitor(case: dict, impl: list) -> list[Violation]:
             if check_index(i, o):
                 st = o['dump'].rsplit('|stats=', 1)[-1].split()
                 check_stats(i, [int(st[0]), int(st[1])])
+        elif k == 'restart':
+            # a restart (cache written, read back by a new manager, settings loaded) changes nothing that is shared or known
+            if check_index(i, o):
+                st = o['dump'].rsplit('|stats=', 1)[-1].split()
+                check_stats(i, [int(st[0]), int(st[1])])
         elif k == 'stats':
             if check_index(i, o):
                 check_stats(i, o['stats'])
@@ -958,6 +991,11 @@ class C07(Property):
         out = []
         for c in cases:
             out.append(c)
+            if prng.random() < 0.3 and len(c['ops']) > 3:
+                # a restart somewhere in the history (cache written, new manager, cache read back, settings loaded)
+                ops = list(c['ops'])
+                ops.insert(prng.randrange(2, len(ops)), ['restart'])
+                out[-1] = c = dict(c, ops=ops)
             if prng.random() < 0.3:
                 # the same history with the documented process-pool configuration: scan calls and results cross a pickle
                 # boundary (same model lines: which executor runs the scanner must not matter)
